@@ -1309,7 +1309,7 @@ struct array : static_array<T, D, Alloc> {
 		}
 		if constexpr(!multi::allocator_traits<typename array::allocator_type>::propagate_on_container_move_assignment::value && !multi::allocator_traits<typename array::allocator_type>::is_always_equal::value) {
 			if(this->alloc() != other.alloc()) {  // a block of an unequal, non-propagating allocator cannot be adopted: copy the value with this array's allocator
-				operator=(static_cast<array const&>(other));
+				copy_assign_<false>(other);  // keeps this array's allocator, whatever propagate_on_container_copy_assignment says
 				other.clear();
 				return *this;
 			}
@@ -1325,22 +1325,26 @@ struct array : static_array<T, D, Alloc> {
 		return *this;
 	}
 
-	auto operator=(array const& other) -> array& {
+	auto operator=(array const& other) -> array& { return copy_assign_<multi::allocator_traits<typename array::allocator_type>::propagate_on_container_copy_assignment::value>(other); }
+
+ private:
+	template<bool Propagate>
+	auto copy_assign_(array const& other) -> array& {
 		bool keep_storage = (array::extensions() == other.extensions());
-		if constexpr(multi::allocator_traits<typename array::allocator_type>::propagate_on_container_copy_assignment::value && !multi::allocator_traits<typename array::allocator_type>::is_always_equal::value) {
+		if constexpr(Propagate && !multi::allocator_traits<typename array::allocator_type>::is_always_equal::value) {
 			if(this->alloc() != other.alloc()) {keep_storage = false;}  // the current block must be released through the allocator that produced it before the allocator is replaced
 		}
 		if(keep_storage) {
 			if(this == &other) {
 				return *this;
 			}  // required by cert-oop54-cpp
-			if constexpr(multi::allocator_traits<typename array::allocator_type>::propagate_on_container_copy_assignment::value) {
+			if constexpr(Propagate) {
 				this->alloc() = other.alloc();
 			}
 			static_::operator=(other);
 		} else {
 			clear();
-			if constexpr(multi::allocator_traits<typename array::allocator_type>::propagate_on_container_copy_assignment::value) {
+			if constexpr(Propagate) {
 				this->alloc() = other.alloc();
 			}
 			// *this is empty here and stays so if the allocation or an element copy throws (no dangling base, nothing leaked)
@@ -1357,6 +1361,8 @@ struct array : static_array<T, D, Alloc> {
 		}
 		return *this;
 	}
+
+ public:
 #else
 	auto operator=(array o) noexcept -> array& { return swap(o), *this; }
 #endif
